@@ -32,6 +32,11 @@ def compute_ctc(mm, fl_channel):
                 continue
             key = "crosstalk fl{}{}".format(i, j)
             par = "ct{}{}".format(i, j)
+            if (f"fl{i}_max" not in mm or f"fl{j}_max" not in mm):
+                # If a channel is not available, then the crosstalk to and
+                # from this channel is zero (these configuration keys are
+                # not required and not part of the ancillary feature hash).
+                continue
             if key in mm.config["calculation"]:
                 ctdict[par] = mm.config["calculation"][key]
 
